@@ -830,6 +830,78 @@ fn main() {
         },
     );
 
+    // ------------------------------------------------------------------ a refused prefix change
+    // Targets are resolved "directly or through a fallback prefix"; the prefixes are fixed once
+    // templates exist (set_fallback_prefixes must then fail). A refused call that nevertheless
+    // changed the list would make includes - resolved again at render time - reach other templates
+    // than the ones the acyclicity check saw.
+    for sp in spaces.iter().filter(|sp| !sp.nm.prefixes.is_empty()) {
+        let identity: Vec<usize> = (0..sp.spec.n).collect();
+        run.family(
+            Family::new(
+                &format!("late-prefix-change-{}", sp.label),
+                sp.items,
+                &format!(
+                    "every accepted graph of the space, rendered, then set_fallback_prefixes with the empty list, the reversed list, each single prefix and a foreign prefix - every call must fail - then rendered again: same text or same failure; {}",
+                    sp.bounds()
+                ),
+            )
+            .budget(safety_s)
+            .describe(|item| {
+                let idx = sp.idx(item);
+                describe_graph(&sp.nm, &sp.tpls(&idx), &sp.sources(&idx), &sp.facts(&idx))
+            })
+            .crash_signature(|item, kind| {
+                let idx = sp.idx(item);
+                let what = if kind == "hang" { "hang" } else { "overflow" };
+                format!("late-prefix-change-render-{what}:{}", crash_class(&sp.nm, &sp.tpls(&idx), &sp.facts(&idx)))
+            }),
+            |item, acc: &mut Acc| {
+                let idx = sp.idx(item);
+                let f = sp.facts(&idx);
+                let srcs = sp.sources(&idx);
+                let Added::Accepted(mut t) = add(&sp.nm, Some(&sp.proto), &srcs, &identity) else {
+                    acc.case(false, "late-prefix-change:not-accepted");
+                    return;
+                };
+                let ctx = tera::Context::new();
+                let render_all = |t: &tera::Tera| -> Vec<String> { sp.nm.names.iter().map(|n| mccore::engine::render(t, n, &ctx).coarse()).collect() };
+                let before = render_all(&t);
+                let mut lists: Vec<Vec<String>> = vec![vec![], sp.nm.prefixes.iter().rev().cloned().collect(), vec!["zz/".to_string()]];
+                for p in &sp.nm.prefixes {
+                    lists.push(vec![p.clone()]);
+                }
+                lists.dedup();
+                for list in lists {
+                    if list == sp.nm.prefixes {
+                        continue;
+                    }
+                    let case = || json!({"graph": describe_graph(&sp.nm, &sp.tpls(&idx), &srcs, &f), "then": format!("set_fallback_prefixes({list:?})"), "renders_before": before});
+                    match mccore::engine::guarded(|| t.set_fallback_prefixes(list.clone())) {
+                        Ok(Err(_)) => {}
+                        Ok(Ok(())) => {
+                            acc.violation("late-prefix-change:accepted", "set_fallback_prefixes succeeded on an instance that holds templates".to_string(), case);
+                            continue;
+                        }
+                        Err(p) => {
+                            acc.violation("late-prefix-change:panic", format!("set_fallback_prefixes panicked: {p}"), case);
+                            continue;
+                        }
+                    }
+                    let after = render_all(&t);
+                    if after != before {
+                        acc.violation(
+                            "late-prefix-change:took-effect",
+                            format!("after the refused call the templates render {after:?}"),
+                            case,
+                        );
+                    }
+                    acc.case(f.edges > 0, "late-prefix-change:unchanged");
+                }
+            },
+        );
+    }
+
     // ------------------------------------------------------------------ rejected batches
     // "rejected" has to mean something: a batch that is refused for ANY reason (here: one more
     // template that does not parse, after or before the graph's templates) must leave none of
